@@ -25,7 +25,7 @@ EPS = float(np.finfo(float).eps)
 
 TAGS = ["VERTEX_XY", "VERTEX_TRACKXYZ", "VERTEX_SE2", "VERTEX_SE3:QUAT", "EDGE_SE2", "EDGE_SE3:QUAT", "EDGE_SE2_XY",
         "EDGE_SE3_TRACKXYZ", "PARAMS_SE2OFFSET", "PARAMS_SE3OFFSET"]
-CUSTOM_TAGS = ["EDGE_DISTANCE", "EDGE_PRIOR_XY"]
+CUSTOM_TAGS = ["EDGE_DISTANCE", "EDGE_PRIOR_XY", "VISUAL_RANGE", "PRIOR_XY"]
 ENTRIES = ["Graph.from_g2o", "Graph.from_g2o+custom", "load_g2o", "load_g2o_r2", "load_g2o_r3", "load_g2o_se2", "load_g2o_se3"]
 PATH = "/simfs/in.g2o"
 
@@ -138,6 +138,13 @@ def reference_parse(text, custom):
             elif head == "EDGE_DISTANCE" and custom:
                 edges.append({"kind": "distance", "ids": [int(f[0]), int(f[1])], "estimate": {"t": "scalar", "v": fx(float(f[2]))},
                               "information": [[fx(float(f[3]))]]})
+            elif head == "VISUAL_RANGE" and custom:
+                edges.append({"kind": "visual_range", "ids": [int(f[0]), int(f[1])], "estimate": {"t": "scalar", "v": fx(float(f[2]))},
+                              "information": [[fx(float(f[3]))]]})
+            elif head == "PRIOR_XY" and custom:
+                nums = [float(x) for x in f[1:]]
+                edges.append({"kind": "prior_tag_p", "ids": [int(f[0])], "estimate": {"t": "arr", "v": [fx(nums[0]), fx(nums[1])]},
+                              "information": _sym(nums[2:5], 2)})
             elif head == "EDGE_PRIOR_XY" and custom:
                 nums = [float(x) for x in f[1:]]
                 edges.append({"kind": "point_prior_xy", "ids": [int(f[0])], "estimate": {"t": "arr", "v": [fx(nums[0]), fx(nums[1])]},
@@ -272,9 +279,9 @@ def gen_file(rng):
         for _ in range(rng.randint(1, 3)):
             if rng.random() < 0.5 and len(by["SE2"]) >= 2:
                 a, b = rng.sample(by["SE2"], 2)
-                clines.append(("EDGE_DISTANCE", [I(a), I(b), F(abs(val()) + 0.1), F(10.0 ** rng.uniform(-2, 2))]))
+                clines.append((rng.choice(["EDGE_DISTANCE", "VISUAL_RANGE"]), [I(a), I(b), F(abs(val()) + 0.1), F(10.0 ** rng.uniform(-2, 2))]))
             elif allp:
-                clines.append(("EDGE_PRIOR_XY", [I(rng.choice(allp)), F(val()), F(val())] + [F(v) for v in tri(2)]))
+                clines.append((rng.choice(["EDGE_PRIOR_XY", "PRIOR_XY"]), [I(rng.choice(allp)), F(val()), F(val())] + [F(v) for v in tri(2)]))
     # legal order: parameters precede the edges that use them; everything else free
     style = rng.choice(["canonical", "vertices_last", "shuffled", "shuffled"])
     meta["order"] = style
@@ -298,6 +305,7 @@ def gen_file(rng):
         "# another comment", "# a third comment", "FIX 1", "FIX 2", "VERTEX_SE2X 8 0.0 1.0 2.0", "PARAMS_CAMERAPARAMETERS 1 4 5 6",
         "# page break\x0cVERTEX_SE2 990001 5 5 0.5", "\x0c# form feed first", "# vt\x0bVERTEX_XY 990002 1 2", "# fs\x1cEDGE_SE2 990001 990001 0 0 0 1 0 0 1 0 1",
         "# gs\x1dFIX 3", "# rs\x1ePARAMS_SE3OFFSET 990003 0 0 0 0 0 0 1",
+        "% exported by MATLAB", "# 100% accepted", "# %d vertices, %s edges", "%", "# {0} {name} {}",
     ]
     blank_pool = ["", "", "   ", " ", "\t"]
     lines = []
@@ -335,7 +343,7 @@ def text_of(workload, which=0):
     return "".join(ln["s"] + ln["eol"] for ln in lines)
 
 
-N_INT_FIELDS = {"VERTEX_XY": 1, "VERTEX_TRACKXYZ": 1, "VERTEX_SE2": 1, "VERTEX_SE3:QUAT": 1, "EDGE_SE2": 2, "EDGE_SE3:QUAT": 2, "EDGE_SE2_XY": 2,
+N_INT_FIELDS = {"VISUAL_RANGE": 2, "PRIOR_XY": 1, "VERTEX_XY": 1, "VERTEX_TRACKXYZ": 1, "VERTEX_SE2": 1, "VERTEX_SE3:QUAT": 1, "EDGE_SE2": 2, "EDGE_SE3:QUAT": 2, "EDGE_SE2_XY": 2,
                 "EDGE_SE3_TRACKXYZ": 3, "PARAMS_SE2OFFSET": 1, "PARAMS_SE3OFFSET": 1, "EDGE_DISTANCE": 2, "EDGE_PRIOR_XY": 1}
 
 
@@ -343,8 +351,22 @@ def second_file(rng, lines):
     """Same tags, ids and parameter ids as the first file, other numbers: what a loader that remembers
     anything between two calls would mix up."""
     out = []
+    shift = rng.choice([0, 0, 100, 7000])  # other parameter ids in the second file (param lines and their users move together)
+    drop_unused = rng.random() < 0.5
     for ln in lines:
         ln2 = dict(ln)
+        if ln["kind"] == "line":
+            parts = ln["s"].split()
+            if parts[0] == "PARAMS_SE2OFFSET" and drop_unused:
+                continue  # never referenced by an edge: the second file simply does not have it
+            if shift and parts[0] in ("PARAMS_SE3OFFSET", "PARAMS_SE2OFFSET"):
+                parts[1] = str(int(parts[1]) + shift)
+                ln2["s"] = " ".join(parts)
+            elif shift and parts[0] == "EDGE_SE3_TRACKXYZ":
+                parts[3] = str(int(parts[3]) + shift)
+                ln2["s"] = " ".join(parts)
+            ln = ln2
+            ln2 = dict(ln)
         if ln["kind"] == "line" and rng.random() < 0.7:
             parts = ln["s"].split()
             k = 1 + N_INT_FIELDS.get(parts[0], 1)
@@ -387,7 +409,7 @@ class C14(OptEngineBase):
     ]
     PROBES = ["tag_" + t for t in TAGS] + [
         "custom_tag", "near_miss_tag", "crlf", "no_final_newline", "split_inside_number", "split_crlf_pair", "vertex_after_edge",
-        "exotic_float_syntax", "logger_suppressed", "eio_fired", "xfer_1", "warnings_counted", "nonunit_measurement_quat", "two_files_interleaved", "control_char_junk",
+        "exotic_float_syntax", "logger_suppressed", "eio_fired", "xfer_1", "warnings_counted", "nonunit_measurement_quat", "two_files_interleaved", "control_char_junk", "malformed_file_load_caught",
     ]
 
     def generate(self, rng, tier, index):
@@ -398,6 +420,21 @@ class C14(OptEngineBase):
         if two:
             workload["lines_b"] = second_file(rng, workload["lines"])
             meta["two_files"] = True
+        if rng.random() < 0.3:
+            # a third, MALFORMED file (nothing is claimed about loading it): the host program catches the failure and goes
+            # on loading well-formed files, which must not be affected by whatever the failed load left behind
+            bad = []
+            for ln in workload["lines"]:
+                if ln["kind"] == "line" and ln["s"].split()[0] in ("PARAMS_SE3OFFSET", "PARAMS_SE2OFFSET"):
+                    parts = ln["s"].split()
+                    parts[1] = str(int(parts[1]) + 5000)
+                    bad.append({"s": " ".join(parts), "eol": "\n", "kind": "line"})
+            if not bad:
+                bad.append({"s": "PARAMS_SE3OFFSET 5000 1 2 3 0 0 0 1", "eol": "\n", "kind": "line"})
+            bad += [dict(ln) for ln in workload["lines"]]
+            bad.append({"s": rng.choice(["VERTEX_SE2 77 1.0 oops 3", "EDGE_SE2 990 991 0 0 0 1 0 0 1 0 1", "VERTEX_XY 5 1.0"]), "eol": "\n", "kind": "line"})
+            workload["lines_bad"] = bad
+            meta["bad_file"] = True
         ops = []
         entries = list(ENTRIES)
         rng.shuffle(entries)
@@ -412,6 +449,9 @@ class C14(OptEngineBase):
             })
         if not any(o["entry"] == "Graph.from_g2o" for o in ops):
             ops[0]["entry"] = "Graph.from_g2o"
+        if workload.get("lines_bad"):
+            for _ in range(rng.randint(1, 2)):
+                ops.insert(rng.randrange(len(ops)), {"op": "load_bad", "entry": rng.choice(["Graph.from_g2o", "load_g2o"]), "xfer": 4096, "bufsize": 8192, "logger": "default"})
         case = {"config": config, "workload": workload, "meta": meta, "ops": ops, "faults": []}
         if rng.random() < 0.45:
             dry = self.execute(copy.deepcopy(case), dry=True)
@@ -467,6 +507,8 @@ class C14(OptEngineBase):
 
             w.disk.put(paths[0], texts[0].encode("ascii"))
             w.disk.put(paths[1], texts[1].encode("ascii"))
+            if case["workload"].get("lines_bad"):
+                w.disk.put("/simfs/bad.g2o", "".join(ln["s"] + ln["eol"] for ln in case["workload"]["lines_bad"]).encode("ascii"))
             ref = {}
             if not dry:
                 for which in (0, 1):
@@ -479,10 +521,26 @@ class C14(OptEngineBase):
             g = None
             for i, op in enumerate(ops):
                 w.begin_op(i)
+                if op["op"] == "load_bad":
+                    g = None
+                    try:
+                        if op["entry"] == "load_g2o":
+                            gload.load_g2o("/simfs/bad.g2o")
+                        else:
+                            Graph.from_g2o("/simfs/bad.g2o")
+                        outcome = "loaded"
+                    except Exception as e:  # noqa -- expected: the file is malformed; nothing is claimed about it
+                        outcome = "raised:" + type(e).__name__
+                    sig_ops.append(["load_bad", outcome])
+                    log.note("load_bad", outcome)
+                    if not dry:
+                        res.probe("malformed_file_load_caught")
+                    continue
                 w.disk.max_xfer = int(op["xfer"])
                 w.disk.platform["bufsize"] = int(op["bufsize"])
                 self._set_logger(op.get("logger", "default"))
                 n_rec_before = len(w.capture.records)
+                n_broken_before = len(w.capture.broken)
                 fired_before = len(w.plan.fired)
                 sc0, st0 = w.disk.split_crlf, w.disk.split_token
                 raised = None
@@ -585,6 +643,10 @@ class C14(OptEngineBase):
                     V("edge-structure", bad)
                     break
                 # warnings on graphslam.graph
+                broken = [r for r in w.capture.broken[n_broken_before:] if r[0] == "graphslam.graph"]
+                if broken and op.get("logger", "default") in ("default", "debug_level", "raising_handler"):
+                    V("warning-unrenderable", "a log record of graphslam.graph could not be rendered (%s) and was lost: %s" % (broken[0][3], broken[0][2]))
+                    break
                 recs = [r for r in w.capture.records[n_rec_before:] if r[0] == "graphslam.graph" and r[1] == logging.WARNING]
                 others = [r for r in w.capture.records[n_rec_before:] if r[0] == "graphslam.graph" and r[1] > logging.WARNING]
                 lk = op.get("logger", "default")
@@ -673,8 +735,14 @@ class C14(OptEngineBase):
         for k in range(len(lines)):
             c = copy.deepcopy(case)
             del c["workload"]["lines"][k]
-            if has_b and k < len(c["workload"]["lines_b"]):
+            if has_b and k < len(c["workload"]["lines_b"]) and len(c["workload"]["lines_b"]) == len(lines):
                 del c["workload"]["lines_b"][k]
+            yield c
+        if case["workload"].get("lines_bad"):
+            c = copy.deepcopy(case)
+            del c["workload"]["lines_bad"]
+            c["ops"] = [o for o in c["ops"] if o["op"] != "load_bad"]
+            c["faults"] = []
             yield c
         for k, ln in enumerate(lines):
             if ln["eol"] == "\r\n":
